@@ -44,6 +44,10 @@ sim_claim("C20", "dynamic events of every sprint checked against the static Insp
   "Every run_result_changed must be listed by key (and category) in the inspection's results, the exit by which a resumed session left its wait must be a waiting exit, every asset an event touches that the event's node holds a fixed reference to must be a listed dependency, and @globals references in templates of visited nodes must be listed. Service outcomes (Success/Failure/Skipped) are driven by injected HTTP/SMTP faults.",
   "Variable references and query-based groups are excepted as the property says; attribution of a result to an action of its node uses the node definition (several actions saving under one name: the one explaining the category).")
 
+sim_claim("C19", "twin worlds from one tape differing only in URN secrets (non-interference as a two-run property); per-call comparison of outcome, path, projected events, full context walk and a template battery; control pairs without the policy must differ",
+  "Two executions of the same simulated deployment - same tape, schedule, faults, clock/UUID/random streams - differ only in the path and display of every URN; under RedactionPolicyURNs the outcome, the path taken, every event minus fields that are URNs by contract, a full recursive walk of Session.CurrentContext() (text, format and JSON renderings, lazies forced) and ~70 templates over it must be identical; nameless contacts render as their id; URN conditions (any syntax) are rejected by ParseQuery. Every 4th pair runs without the policy and must differ (sensitivity).",
+  "Fields that carry URNs by contract are projected away by an explicit list; transfer_airtime is excluded (its service errors name the number by contract); presence tests on URNs (empty value) are allowed by design.")
+
 NOT_BUILT = {
 }
 
